@@ -4,7 +4,7 @@
 (* operators/atoms over the atoms of Input.atoms and the range forms of     *)
 (* Input.ranges, and prints each as JSON (pipeline G for C06 / C15).        *)
 (***************************************************************************)
-EXTENDS PMContent
+EXTENDS PMExprSyntax
 
 Atoms == Range(Input.atoms)
 RangeSpecs == Range(Input.ranges)      \* <<min, max>> pairs, max = -1 unbounded
@@ -24,4 +24,7 @@ Init == e \in UNION {ExprsOfSize(n) : n \in 1..MaxSize}
 Next == UNCHANGED e
 Spec == Init /\ [][Next]_e
 Emit == PrintT(ToJson(e))
+(* the recogniser reads back what the printer prints (nested seq/choice are parenthesised by Render,
+   so every enumerated tree is its own normal form) *)
+RoundTrip == LET r == Parse(Render(e)) IN r.ok /\ r.e = e
 =============================================================================
